@@ -588,9 +588,11 @@ def revert (c : Cfg) (s : ADB) (id : Nat) : ADB :=
 def prepare (s : ADB) (th bh : Hash) (ti : Nat) : ADB :=
   if s.crashed then s else { s with thash := th, bhash := bh, txIndex := ti, al := ⟨[], []⟩ }
 
-/-- `updateTrie`: flush the dirty slots into the storage trie -/
+/-- `updateTrie`: flush the dirty slots into the storage trie.  `dirtyStorage` is a Go map (unique keys,
+    arbitrary iteration order); on the association list the fold is written so that, should a key
+    occur twice, the entry `mget` sees (the first) is the one that counts. -/
 def flush (strie : List (Key × Val)) (dirty : List (Key × Val)) : List (Key × Val) :=
-  dirty.foldl (fun t p => if p.2 = [] then mdel t p.1 else mset t p.1 p.2) strie
+  dirty.foldr (fun p t => if p.2 = [] then mdel t p.1 else mset t p.1 p.2) strie
 
 def Obj.flushed (o : Obj) : Obj := { o with strie := flush o.strie o.dirty, dirty := [] }
 
